@@ -21,6 +21,7 @@ RULE = ('quick/thorough: EVERY non-decreasing spike-sample train of length <= L 
         'and firing_rate. Also: three trains of > 2**14 spikes whose bulk has no neighbour inside the window (one cluster made of isolated spikes only) with dense bursts at the start / middle / very end; every bin size of 1..300 samples (thorough: ..2500) with lags that are exact multiples of the bin; call histories in one process (id lists of different dtypes with equal bytes; >= 2**16-entry results held and written to by the caller across later calls of the same shape). non-trivial = distinct (train, labels, params, id order) that has equal '
         'times or a pair exactly in the last bin of the window AND an id list that is not sorted.')
 RULE += ' Round 6: whole seconds as int64 / int32 / uint64 arrays at rates 2 and 4.'
+RULE += ' Round 8: non-dyadic sampling rates (10, 1000, 30000 ...) wherever time x rate, the bin and the window stay exact; first spike not at 0.'
 EXHAUSTIVE = {'quick': True, 'thorough': True}
 EXHAUSTIVE_SCOPE = {'quick': 'trains L<=5 on grid 0..4 (see rule); random long trains are sampled',
                     'thorough': 'trains L<=7 on grid 0..6 (see rule); random long trains are sampled'}
